@@ -10,3 +10,61 @@ package confutil
 //@ modifies nothing
 //@ loop 0 invariant [none-of-the-visited-cases-matches] forall(k, 0, rangeidx, chosenCases[k] != checkCase)
 //@ ensures [exactly-the-listed-tags] result == (len(chosenCases) == 0 || exists(k, 0, len(chosenCases), chosenCases[k] == checkCase))
+
+// ---------------------------------------------------------------- placeholders ${type:name}
+
+// ${property:file#key}: the value of key in the properties file; a missing '#key', file or key is an error, never a fault.
+//@ func propertyTokenResolver
+//@ props C13 C17
+//@ nilsafe
+//@ ensures [needs-file-and-key] imp(len(result_of(strings.SplitN, 0)) != 2, result1 != nil)
+//@ at call strings.SplitN#0 assert [file-and-key] arg(a0) == in0 && arg(a1) == "#" && arg(a2) == 2
+//@ at call os.Open assert [the-named-file] arg(a0) == result_of(strings.SplitN, 0)[0]
+
+// ${env:NAME}: an unset variable is an error.
+//@ func envTokenResolver
+//@ props C17
+//@ modifies nothing
+//@ ensures [unset-variable-is-an-error] imp(!result_of(os.LookupEnv, 1), result1 != nil && cause(result1) == ErrEnvVariableNotProvided)
+//@ ensures [the-variable-value] imp(result_of(os.LookupEnv, 1), result1 == nil && result0 == result_of(os.LookupEnv, 0))
+//@ at call os.LookupEnv assert arg(a0) == in0
+
+//@ func getTagResolver
+//@ props C17
+//@ modifies nothing
+//@ ensures [unknown-type] iff(result1 != nil, !has(resolvers, strings.ToLower(tagType0))) && imp(result1 != nil, result1 == ErrResolverNotRegistered)
+
+//@ func findTags
+//@ props C13 C17
+//@ nilsafe
+//@ at call tagRegexp.FindAllStringSubmatch assume [the-placeholder-pattern-has-two-groups] regexpGroups(tagRegexp) == 2
+//@ loop 0 invariant forall(k, 0, len(result), result[k] != nil) && forall(k, 0, len(tokensFound), len(tokensFound[k]) == 3)
+//@ ensures result1 == nil && forall(k, 0, len(result0), result0[k] != nil)
+
+// A resolver failure (unset variable, missing property) fails the decoding of the value.
+//@ func ResolveCustomTags
+//@ props C13 C17
+//@ nilsafe
+//@ requires targetType != nil
+//@ loop 0 invariant forall(k, 0, len(tokens), tokens[k] != nil) && imp(calls(resolver) > 0, result_of(resolver, 1) == nil)
+//@ ensures [no-placeholder-is-reported] imp(result_of(findTags, 1) == nil && len(result_of(findTags, 0)) == 0, result1 == ErrNoTagsFound)
+//@ ensures [resolver-failure-is-an-error] imp(calls(resolver) > 0 && result_of(resolver, 1) != nil, result1 == result_of(resolver, 1))
+
+//@ func cast
+//@ props C13 C17
+//@ nilsafe
+//@ requires t != nil
+//@ func castBool
+//@ props C13 C17
+//@ modifies nothing
+//@ ensures imp(result_of(strconv.ParseBool, 1) != nil, result1 != nil && cause(result1) == ErrCantCastVariableToTargetType)
+//@ func castInt
+//@ props C13 C17
+//@ nilsafe
+//@ requires t != nil
+//@ ensures imp(result_of(strconv.ParseInt, 1) != nil, result1 != nil && cause(result1) == ErrCantCastVariableToTargetType)
+//@ func castFloat
+//@ props C13 C17
+//@ nilsafe
+//@ requires t != nil
+//@ ensures imp(result_of(strconv.ParseFloat, 1) != nil, result1 != nil && cause(result1) == ErrCantCastVariableToTargetType)
